@@ -227,11 +227,11 @@ def explore_and_discharge(run, tier, sess, thunk, fq, prefix):
     return ok
 
 
-def verify_feed(run, tier, sess):
+def verify_feed(run, tier, sess, prefix_root='C04'):
     """feed(e): exactly one action, chosen by the qualifier, on the table chosen by the event's domain"""
     it = sess.it
     fq = MOD + ':TracesParser.feed'
-    prefix = 'C04/feed'
+    prefix = prefix_root + '/feed'
     calls = []
 
     def action(name):
@@ -268,12 +268,12 @@ def verify_feed(run, tier, sess):
     return ok
 
 
-def verify_pel(run, tier, sess):
+def verify_pel(run, tier, sess, prefix_root='C04'):
     """parse_event_list(evs): None unless evs[0]'s id is in the table and its name has a decoder; otherwise
     exactly one call of that decoder on (self, evs)"""
     it = sess.it
     fq = MOD + ':TracesParser.parse_event_list'
-    prefix = 'C04/parse_event_list'
+    prefix = prefix_root + '/parse_event_list'
     it.contracts.pop(MOD + ':TracesParser.parse_event_list', None)
 
     def thunk(ctx):
